@@ -3,7 +3,7 @@ from __future__ import annotations
 
 import warnings
 from dataclasses import dataclass, field, fields
-from typing import Any
+from typing import Any, Sequence
 
 warnings.simplefilter("ignore", DeprecationWarning)
 
@@ -62,6 +62,14 @@ class LNarrow(LBase):
 
 
 @dataclass
+class LAbs(LBase):
+    """A child field whose annotation names an abstract collection: it holds nodes by its value."""
+
+    head: LBase | None = None
+    extras: Sequence[LBase] = ()
+
+
+@dataclass
 class LFalsy(LLeaf):
     """A leaf that is falsy in a boolean context (e.g. an empty container node)."""
 
@@ -69,7 +77,7 @@ class LFalsy(LLeaf):
         return False
 
 
-LCLASSES: dict[str, type] = {c.__name__: c for c in (LBase, LLeaf, LSub, LTup, LList, LOpt, LReq, LMix, LNarrow, LFalsy)}
+LCLASSES: dict[str, type] = {c.__name__: c for c in (LBase, LLeaf, LSub, LTup, LList, LOpt, LReq, LMix, LNarrow, LFalsy, LAbs)}
 
 
 def _is_recipe(val: Any) -> bool:
